@@ -130,11 +130,27 @@ class BeartypeValidatorBinaryABC(BeartypeValidator, metaclass=ABCMeta):
         indent_level_inner_nested = indent_level_inner + CODE_INDENT_1
 
         # Line diagnosing this object against this parent conjunction.
+        # True only if this object satisfies this validator if deciding so is
+        # safe *OR* "None" otherwise. If a prior sibling validator has already
+        # short-circuited this validator, this validator assumed that sibling to
+        # be satisfied and may thus raise an exception when tested against an
+        # object violating that sibling (e.g., "IsNonEmpty & (IsFirstPositive |
+        # IsFirstNone)" against the empty list). In this case, silently ignore
+        # this exception exactly as child validators already do.
+        is_obj_valid = None
+        if is_shortcircuited:
+            try:
+                is_obj_valid = self.is_valid(obj)
+            except Exception:
+                pass
+        else:
+            is_obj_valid = self.is_valid(obj)
+
         line_outer_prefix = format_diagnosis_line(
             validator_repr='(',
             indent_level_outer=indent_level_outer,
             indent_level_inner=indent_level_inner,
-            is_obj_valid=self.is_valid(obj),
+            is_obj_valid=is_obj_valid,
         )
 
         # Line diagnosing this object against this first child validator, with
